@@ -146,6 +146,42 @@ fn sample(r: &mut Rng, t: &[Tok]) -> String {
     s
 }
 
+/// A name from the language of a parsed (reference) glob, so that real
+/// pkgsrc patterns are also tried on names in which '*' spans '-', '.' and
+/// non-ASCII characters.
+fn sample_ref(r: &mut Rng, toks: &[GTok]) -> String {
+    let mut s = String::new();
+    for t in toks {
+        match t {
+            GTok::Lit(c) => s.push(*c),
+            GTok::Any => s.push(any_char(r)),
+            GTok::Star => {
+                for _ in 0..r.below(5) {
+                    s.push(any_char(r));
+                }
+            }
+            GTok::Set { neg, items } => {
+                if *neg {
+                    let mut c = '#';
+                    for _ in 0..8 {
+                        let k = any_char(r);
+                        if !items.iter().any(|(a, b)| *a <= k && k <= *b) {
+                            c = k;
+                            break;
+                        }
+                    }
+                    s.push(c);
+                } else {
+                    let (a, b) = *r.pick(items);
+                    let span = (b as u32 - a as u32) as usize;
+                    s.push(char::from_u32(a as u32 + r.below(span + 1) as u32).unwrap_or(a));
+                }
+            }
+        }
+    }
+    s
+}
+
 fn flip(c: char) -> char {
     if c.is_ascii_lowercase() {
         c.to_ascii_uppercase()
@@ -410,6 +446,15 @@ pub fn run(cx: &mut Cx) {
                 .collect();
             for _ in 0..3 {
                 cand.push((r.pick(&names).clone(), "corpus"));
+            }
+            if let GlobParse::Ok(toks) = opat::parse_glob(p) {
+                for _ in 0..4 {
+                    let nm = sample_ref(&mut r, &toks);
+                    if r.chance(1, 2) {
+                        cand.extend(mutations(&mut r, &nm).into_iter().take(6));
+                    }
+                    cand.push((nm, "lang"));
+                }
             }
             cx.check(
                 || format!("corpus glob {p:?} x {} names", cand.len()),
